@@ -70,6 +70,27 @@ theorem accepted_filters_are_covered (id prop : Nat) (h : filterOk id prop = tru
             · exact ⟨.arm64, rfl, h⟩
           · simp only [hr, if_false] at h; cases h
 
+/-- `XZWriter::new` accepts a configuration only without a preset dictionary (the XZ format cannot announce one, the
+    reader model `Xz.decode` starts every block from an empty dictionary - `xz_container_roundtrip` is stated for
+    exactly that), with at most three pre-filters, each acceptable, and in-range LZMA options.  The pinned constructor
+    accepted a preset dictionary and wrote a stream its own reader rejects (repaired, KNOWN_FINDINGS `fixed`). -/
+theorem xz_accepted_has_no_preset (o : LzOptions) (fs : List (Nat × Nat)) (presetLen : Nat)
+    (h : xzValidate o fs presetLen = true) :
+    presetLen = 0 ∧ validate o true = true ∧ fs.length ≤ 3 ∧ ∀ f ∈ fs, filterOk f.1 f.2 = true := by
+  simp only [xzValidate, Bool.and_eq_true, decide_eq_true_eq, List.all_eq_true] at h
+  obtain ⟨⟨⟨h1, h2⟩, h3⟩, h4⟩ := h
+  exact ⟨h3, h2, h1, h4⟩
+
+/-- what the pinned `XZWriter::new` did: the same decision without the preset-dictionary clause accepts a 1000-byte
+    preset dictionary (witness of the defect; the input is replayed on the real code by the C19 grid) -/
+theorem pinned_xz_accepts_preset :
+    let pinned := fun (o : LzOptions) (fs : List (Nat × Nat)) (_presetLen : Nat) =>
+      decide (fs.length ≤ 3) && validate o true && fs.all fun f => filterOk f.1 f.2
+    pinned { dict := 65536, lc := 3, lp := 0, pb := 2, nice := 32 } [] 1000 = true ∧
+    xzValidate { dict := 65536, lc := 3, lp := 0, pb := 2, nice := 32 } [] 1000 = false := by decide
+
+example : xzValidate { dict := 65536, lc := 3, lp := 0, pb := 2, nice := 32 } [(3, 1), (4, 0)] 0 = true := by decide
+
 example : validate { dict := 8388608, lc := 3, lp := 0, pb := 2, nice := 64 } true = true ∧
     validate { dict := 8388608, lc := 4, lp := 1, pb := 2, nice := 64 } true = false ∧
     validate { dict := 8388608, lc := 4, lp := 1, pb := 2, nice := 64 } false = true := by decide
